@@ -39,7 +39,7 @@ func c04(c *core.Check) {
 	c.Explain = "EXIT: over the VTA call graph rooted at main.main / sdk.InvokeThriftgo: " +
 		"E1 every function deferred in main that calls recover() reaches os.Exit(non-zero) or re-panics on the recovered path; other recover() sites in the closure assign the function's named error result; " +
 		"E2 every os.Exit argument in the closure is a non-zero constant; " +
-		"E3 no error-typed result of a repository function (or of fmt.Errorf/errors.New/os.MkdirAll/WriteFile) in the closure is dead: each has a use that reaches a return, a nil-test, a panic or a call (SSA liveness; an overwritten or shadowed error is unreferenced); blank assignments are violations unless tabled with a reason; " +
+		"E3c (sticky errors) from every `err != nil` branch that does not return at once, bounded path exploration on SSA (each block at most twice, phis resolved per path, nil-ness facts per dynamic value) shows that no return yields nil or a value tested to be nil: an error found in one loop iteration cannot be overwritten by a later one; E3 no error-typed result of a repository function (or of fmt.Errorf/errors.New/os.MkdirAll/WriteFile) in the closure is dead: each has a use that reaches a return, a nil-test, a panic or a call (SSA liveness; an overwritten or shadowed error is unreferenced); blank assignments are violations unless tabled with a reason; " +
 		"E4 file-creating calls (os/ioutil WriteFile, os.Create, os.OpenFile, os.MkdirAll) reachable from InvokeThriftgo sit only in Generator.Persist's callback, and in InvokeThriftgo every path to Persist passes ParseFile, CircleDetect, CheckAll, ResolveSymbols and Generate; " +
 		"E5 no local boolean that guards an error exit is read but never assigned after its zero initialisation (a check that can never fire); " +
 		"E6 every self-recursive function that follows typedef links (calls (*Thrift).GetTypedef and recurses) either carries its own visited/depth bound or is, inside ResolveAST, only reachable after ResolveTypedefs rejected cycles; the same for include links and CircleDetect; " +
@@ -62,6 +62,7 @@ func c04(c *core.Check) {
 	c04E1(c, mainFn, fns)
 	c04E2(c, fns)
 	c04E3(c, fns)
+	c04E3sticky(c, fns)
 	c04E4(c, inv, fns, parent)
 	c04E5(c, fns)
 	c04E6(c, reach)
